@@ -173,7 +173,7 @@ Here we assume that all parts have numeric arguments, except for
         res = []
         while position < len(spec):
             try:
-                float(spec[position])
+                float(str(spec[position]))
                 res.append(spec[position])
                 position += 1
             except ValueError:
